@@ -141,5 +141,6 @@ Example C12_failed_activation_nonvacuous :
   let st := run repaired ex_cfg ex_st [OEnable ["rb"] ∅; OEnable ["ra"] ∅] in
   (step repaired ex_cfg st (OEnable ["rc"; "rd"] ∅)).2 = OFailed EValue ∧
   (step repaired ex_cfg st (OWithEnter ["nosuch"] ∅)).2 = OFailed EKey ∧
+  (step repaired ex_cfg st (OEnable ["re"] ∅)).2 = OFailed EAssert ∧
   active_names st.2 = ["ra"; "rb"].
 Proof. exact failed_activation_nonvacuous. Qed.
